@@ -35,16 +35,21 @@ RULE = ("documents: page trees of <= 60 nodes generated as real PDFs (chains up 
         "comb shapes; node ids shuffled against Kids order; Resources/MediaBox/CropBox/Rotate placed at random levels, "
         "direct or indirect, box elements int/real/indirect, unnormalised and wrong-length boxes, Rotate negative, "
         ">= 360, non-multiples of 90; Kids arrays direct/indirect); graph cases add back edges, self loops, repeated "
-        "and shared kids; wild cases (tie only) add catalog-level attributes, unknown/missing Type, dangling kids, "
-        "non-integer Rotate, non-numeric boxes, missing /Pages (fallback scan). Each document is observed through "
+        "and shared kids, every tenth document a small dense Kids graph (8-15 nodes, up to 16 extra edges: cycles "
+        "through several nodes, nodes shared many times); Resources with nested direct dictionaries/arrays; wild cases (tie only) add catalog-level attributes, unknown/missing Type, dangling kids, "
+        "non-integer Rotate, non-numeric boxes, boxes with array/dictionary elements, direct Page dictionaries in "
+        "Kids with direct boxes and nested Resources, arrays in Kids, missing /Pages (fallback scan). Each document is observed through "
         "PDFPage.get_pages, 4-6 (page_numbers, maxpages) selections incl. selected indices beyond the limit, "
+        "page_numbers None / empty / list with duplicates / set / negative and too large members / no member in "
+        "range, maxpages negative (tie only); the page order also against the path-enumeration specification; "
         "extract_text and the PDFPageAggregator (LTPage.bbox + one glyph matrix per page). A case is non-trivial "
         "when it is a distinct document with >= 2 pages and >= 1 inherited attribute, or a distinct selection that "
         "drops >= 1 page")
 TRUSTED_BASE = [
     "tools/translate/gen_c04.py (Python ast -> Lean) for INHERITABLE_ATTRS, the Rotate normalisation arithmetic of "
     "PDFPage.__init__, the rotation option of extract_text_to_fp, the US-Letter default, _normalize_rect, the "
-    "process_page rotation->CTM table, begin_page's box and the tests of the overlay loop and of the get_pages loop; "
+    "process_page rotation->CTM table, begin_page's box, the tests of the overlay loop and of the get_pages loop, "
+    "the entries PDFPage.__init__ reads (KEY_*) and the default structure of _parse_mediabox/_parse_cropbox; "
     "the statement skeletons of depth_first_search, of the tail of create_pages and of the get_pages loop, and the "
     "page_numbers/maxpages plumbing of extract_text/extract_pages/extract_text_to_fp are asserted on the AST; every "
     "translated definition is also run against pdfminer",
@@ -57,11 +62,13 @@ TRUSTED_BASE = [
 ASSUMPTIONS = [
     "property domain: Kids entries are indirect references; Type values are direct names. Integer kids, dictionaries "
     "written directly into Kids or as catalog Pages (Page yielded with pageid None, Pages ignored), atoms in Kids "
-    "are modelled and generated for the tie; dictionary values are atoms or arrays (a direct dictionary holds atoms)",
+    "are modelled and generated for the tie; values nest to any depth (arrays and dictionaries inside direct "
+    "dictionaries and arrays)",
     "the catalog itself carries no inheritable attribute (property domain: trees of Pages/Page nodes); "
     "catalog-level attributes are generated for the model/implementation tie only",
     "Rotate values are integers; boxes are arrays of numbers (other types get the default box / 0: tie only)",
-    "empty page_numbers means all pages (Python truthiness); maxpages is a natural number, 0 = no limit",
+    "page_numbers None or empty means all pages (Python truthiness), any container of integers otherwise; the "
+    "property's domain has maxpages >= 0 (0 = no limit); a negative maxpages is modelled (acts like 1) for the tie",
     "tree depth stays below Python's recursion limit (generated depth <= 25 quick / <= 200 thorough)",
 ]
 STATEMENT_STATUS: Dict[str, str] = {
@@ -93,6 +100,24 @@ STATEMENT_STATUS: Dict[str, str] = {
     "C04_select": "proved on the regenerated loop tests: maxpages natural (0 = no limit), empty page_numbers = all",
     "C04_select_pending": "proved (was defined by fiat): a pending exception of create_pages is raised by get_pages "
                           "iff the index of the failing page is below the limit",
+    "C04_graph_order": "proved (new): on EVERY Kids graph the yielded indirect pages = specOrder, the first arrivals "
+                       "of the depth-first enumeration of all simple Kids paths (algorithm-independent: no visited "
+                       "set); hypothesis: the walk ends normally (no integer kid naming nothing)",
+    "C04_path_budget": "proved: the path budget #objects+1 of specOrder cuts no simple path",
+    "C04_order_specs_agree": "proved: on page trees specOrder = leaf order of the inductive tree specification",
+    "C04_direct_kid": "proved: a direct Page dictionary in Kids (values nested to any depth) is yielded without "
+                      "object number with own-or-inherited attributes; an array in Kids is ignored (tie domain)",
+    "C04_select_py": "proved: get_pages with page_numbers None / any container of integers (duplicates, negative, "
+                     "too large) and every maxpages >= 0 = one-line specification, incl. the pending exception",
+    "C04_select_members": "proved: containers with the same members select the same pages (any maxpages)",
+    "C04_select_none_empty": "proved: None and an empty container are the same request",
+    "C04_select_out_of_range": "proved: a non-empty container without a member in range selects nothing",
+    "C04_select_negative_limit": "proved (outside the domain, code fact): a negative maxpages acts like 1",
+    "C04_box_defaults": "proved on the regenerated _parse_mediabox/_parse_cropbox structure: missing/ill-formed "
+                        "MediaBox -> US Letter, missing/ill-formed CropBox -> the page's MediaBox",
+    "C04_rotate_quarter": "proved: an integer Rotate that is a multiple of 90 is stored as 0, 90, 180 or 270",
+    "C04_page_lands": "proved: C04_ctm/C04_ctm_bbox/C04_render for every page PDFPage.__init__ constructs with "
+                      "Rotate a multiple of 90 - no hypothesis on the boxes left",
     "C04_select_pinned_cex": "proved counter-example for the pinned loop (page_numbers={5}, maxpages=2); fixed in 262fbfd",
 }
 
